@@ -45,6 +45,31 @@ def public(c: Dict[str, object]) -> Dict[str, object]:
 
 
 _CACHE: Dict[tuple, List[Dict[str, object]]] = {}
+_TABLE_KEYS: Optional[Set[str]] = None
+FREEZE_MODE = False
+
+
+def table_keys() -> Set[str]:
+    global _TABLE_KEYS
+    if _TABLE_KEYS is None:
+        _TABLE_KEYS = set(json.load(open(TABLE))) if os.path.exists(TABLE) else set()
+    return _TABLE_KEYS
+
+
+def _no_inline(prog: Program):
+    """methods that are described on their own: tabled encoders (check mode) / every method with direct solver effects
+    (freeze mode).  Calls to any other private method are followed, so that extracting a block into a helper - or moving
+    rows between an encoder and a new helper - does not change the description of the encoder."""
+    from sa.mir import has_direct_effects
+
+    def f(owner: str, meth: str) -> bool:
+        if f"{owner}.{meth}" in table_keys():
+            return True
+        if FREEZE_MODE:
+            c = prog.cls(owner)
+            return meth in c.methods and has_direct_effects(c.methods[meth].node)
+        return False
+    return f
 
 
 def method_effects(prog: Program, cls: ClassInfo, f: FuncInfo) -> List[Dict[str, object]]:
@@ -57,15 +82,49 @@ def method_effects(prog: Program, cls: ClassInfo, f: FuncInfo) -> List[Dict[str,
 
 
 def _method_effects(prog: Program, cls: ClassInfo, f: FuncInfo) -> List[Dict[str, object]]:
-    effs = extract(prog, f)
+    effs = extract(prog, f, cls=cls, no_inline=_no_inline(prog))
     names = class_var_names(prog, cls, effs)
     out = []
     for e in effs:
         c = canon_effect(e, names)
         c["_line"] = e.lineno
+        c["_file"] = e.func.module.relpath if e.func is not None else f.module.relpath
         c["_fid"] = fid_of(c)
         out.append(c)
     return out
+
+
+def payload_sig(pl: Dict[str, object]) -> str:
+    return json.dumps({k: v for k, v in pl.items() if k not in ("id", "serves", "guard", "guards") and not k.startswith("_")}, sort_keys=True)
+
+
+def case_rows(effs: List[Dict[str, object]]) -> List[Dict[str, object]]:
+    """One row per distinct payload (kind, quantifier, normal form / bounds): its guard is the disjunction of the guards of
+    all cases with that payload, in canonical (truth-table) form."""
+    from sa import boolnf as B
+    groups: Dict[str, Dict[str, object]] = {}
+    order: List[str] = []
+    for c in effs:
+        for gf, pl in c["_cases"]:
+            s_ = payload_sig(pl)
+            if s_ not in groups:
+                row = {k: v for k, v in pl.items() if not k.startswith("_")}
+                row["_guards"] = []
+                row["_line"] = c["_line"]
+                row["_file"] = c.get("_file")
+                row["_fid"] = fid_of({**pl, "kind": c["kind"]})
+                row["_opaque"] = list(getattr(pl.get("_nf"), "opaque", []) or [])
+                groups[s_] = row
+                order.append(s_)
+            groups[s_]["_guards"].append(gf)
+    rows = []
+    for s_ in order:
+        r = groups[s_]
+        gf = B.mk_or(r["_guards"])
+        r["_guard"] = gf
+        r["guard"] = B.key(gf)
+        rows.append(r)
+    return rows
 
 
 def current_table(prog: Program) -> Dict[str, List[Dict[str, object]]]:
@@ -76,7 +135,7 @@ def current_table(prog: Program) -> Dict[str, List[Dict[str, object]]]:
             if not effs:
                 continue
             rows = []
-            for c in effs:
+            for c in case_rows(effs):
                 row = public(c)
                 row["id"] = c["_fid"]
                 row["serves"] = serves(cls.name, f.name, c["_fid"])
@@ -96,8 +155,11 @@ def sig(row: Dict[str, object]) -> str:
 
 
 def conformance(prog: Program, rep, RID: str, pid: str, floor_note: str = ""):
-    """Every tabled effect serving `pid` must be present in the current tree with an equal canonical form (relation,
-    normal form, quantifier domain, guards, bounds).  Un-tabled extra effects are listed as notes."""
+    """Every tabled row serving `pid` (payload = relation + linear normal form / bounds + quantifier domain; guard = the
+    condition under which it is emitted) must be emitted by the current encoder - possibly through helper methods it
+    calls - with the same payload under an *equivalent* guard (truth-table comparison over canonical atoms).
+    Un-tabled extra effects are listed as notes."""
+    from sa import boolnf as B
     table = load_table()
     n = 0
     for mkey, rows in sorted(table.items()):
@@ -109,41 +171,40 @@ def conformance(prog: Program, rep, RID: str, pid: str, floor_note: str = ""):
         if mname not in cls.methods:
             raise AnalysisError(f"anchor vanished: encoder {mkey} (tabled formulation cannot be located)")
         f = cls.methods[mname]
-        cur = method_effects(prog, cls, f)
-        cur_sigs: Dict[str, List[Dict[str, object]]] = {}
-        for c in cur:
-            cur_sigs.setdefault(sig(c), []).append(c)
-        used = set()
+        cur = case_rows(method_effects(prog, cls, f))
+        by_payload = {payload_sig(c): c for c in cur}
+        unresolved = [c for c in cur if c["_opaque"]]
+        table_payloads = {payload_sig(r) for r in rows}
         for r in mine:
             n += 1
-            s = sig(r)
-            hit = None
-            for c in cur_sigs.get(s, []):
-                if id(c) not in used:
-                    hit = c
-                    break
             key = f"{mkey}:{r['id']}"
+            hit = by_payload.get(payload_sig(r))
+            if hit is not None and hit["guard"] == r.get("guard"):
+                rep.ok(RID, key, "present with equal normal form under an equivalent guard", f"{hit['_file']}:{hit['_line']}",
+                       sample={"family": r["id"], "quant": r.get("quant"), "guard": r.get("guard"),
+                               "nf": r.get("nf", {k: v for k, v in r.items() if k not in ('id', 'serves', 'quant', 'guard', 'kind')})})
+                continue
             if hit is not None:
-                used.add(id(hit))
-                rep.ok(RID, key, "present with equal normal form", f"{f.module.relpath}:{hit['_line']}",
-                       sample={"family": r["id"], "quant": r.get("quant"), "guards": r.get("guards"),
-                               "nf": r.get("nf", {k: v for k, v in r.items() if k not in ('id', 'serves', 'quant', 'guards', 'kind')})})
+                rep.violation(RID, key, f"tabled {r['kind']} `{r['id']}` is emitted under a different condition. expected guard: [{r.get('guard')}]  "
+                              f"|| in code: [{hit['guard']}]  (payload: {describe_row(r)[:300]})"[:900], f"{hit['_file']}:{hit['_line']}")
+                continue
+            # closest current effect of the same family for the report
+            near = [c for c in cur if c["kind"] == r["kind"] and c["_fid"] == r["id"] and payload_sig(c) not in table_payloads]
+            if not near:
+                near = [c for c in cur if c["kind"] == r["kind"] and payload_sig(c) not in table_payloads]
+            msg = f"tabled {r['kind']} `{r['id']}` not found with its normal form. expected: {describe_row(r)}"
+            loc = f.loc()
+            if near:
+                msg += f" || closest in code: {describe_row(public(near[0]))}"
+                loc = f"{near[0]['_file']}:{near[0]['_line']}"
             else:
-                # closest current effect of the same kind for the report
-                near = [c for c in cur if c["kind"] == r["kind"] and id(c) not in used and c["_fid"] == r["id"]]
-                if not near:
-                    near = [c for c in cur if c["kind"] == r["kind"] and id(c) not in used and sig(c) not in {sig(x) for x in rows}]
-                msg = f"tabled {r['kind']} `{r['id']}` not found with its normal form. expected: {describe_row(r)}"
-                loc = f.loc()
-                if near:
-                    msg += f" || closest in code: {describe_row(public(near[0]))}"
-                    loc = f"{f.module.relpath}:{near[0]['_line']}"
-                else:
-                    msg += " || no candidate left in the method (row removed?)"
-                rep.violation(RID, key, msg[:900], loc)
-        table_sigs = {sig(r) for r in rows}
+                msg += " || no candidate left in the method (row removed?)"
+            if any(c["_opaque"] for c in near):
+                raise AnalysisError(f"{key}: the candidate row in the code could not be brought to normal form ({near[0]['_opaque'][:2]}); "
+                                    "review the change and extend the normaliser or re-freeze")
+            rep.violation(RID, key, msg[:900], loc)
         for c in cur:
-            if sig(c) not in table_sigs:
+            if payload_sig(c) not in table_payloads:
                 rep.note(f"{mkey}: effect not in the formulation table (not judged): line {c['_line']} {describe_row(public(c))[:200]}")
     if n == 0:
         raise AnalysisError(f"no tabled effect serves {pid}")
@@ -153,8 +214,10 @@ def describe_row(r: Dict[str, object]) -> str:
     parts = []
     if r.get("quant"):
         parts.append("forall " + " & ".join(r["quant"]))
-    if r.get("guards"):
+    if r.get("guard") and r.get("guard") != "TRUE":
+        parts.append("if " + str(r["guard"]))
+    elif r.get("guards"):
         parts.append("if " + " & ".join(r["guards"]))
-    rest = {k: v for k, v in r.items() if k not in ("kind", "quant", "guards", "id", "serves")}
+    rest = {k: v for k, v in r.items() if k not in ("kind", "quant", "guards", "guard", "id", "serves")}
     parts.append(json.dumps(rest, sort_keys=True))
     return " ".join(parts)
